@@ -1586,7 +1586,11 @@ REPLAYERS["chainmut"] = replay_chainmut
 # =============================================================== C10 untrusted bytes (WireAdversary)
 
 def adv_text(c):
-    t = " + ".join("%s=%s" % (k["f"], k["v"]) for k in c["knobs"]) or ("conformance sample " + c["file"] if c.get("file") else "valid token")
+    def kv(k):
+        if k["v"].startswith("x:"):
+            return "check if resource($x), %s   (postfix)" % expr_text(json.loads(k["v"][2:]))
+        return "%s=%s" % (k["f"], k["v"])
+    t = " + ".join(kv(k) for k in c["knobs"]) or ("conformance sample " + c["file"] if c.get("file") else "valid token")
     return t + (" + byte corruption #%d" % c["corrupt"] if c.get("corrupt") else "")
 
 
@@ -1626,6 +1630,23 @@ def c10(run):
     for i in range(ncor):
         base = rnd.choice(r.cases)["knobs"] if i % 3 == 0 else []
         cases.append({"id": "b%d" % i, "knobs": base, "gated": False, "corrupt": run.seed * 1000003 + i + 1})
+    # expressions evaluated INSIDE a token: the operator sequences TLC enumerates for ExprMC (totality) and the expr family's
+    # panels (every operator x operand pair, composed set expressions whose operands only exist at evaluation time) are encoded as
+    # the check of an attacker-signed token; a panic there runs on the evaluation goroutine and kills the verifier
+    rx = core.tlc(run.work, "ExprMC", "ExprMC_quick", timeout=3000)
+    run.add_tlc(rx, "L1 Expr totality over all operator sequences + export (evaluated inside tokens)")
+    xc = [c["ops"] for c in rx.cases] + [c["ops"] for c in gen_cases(run, driver, "expr") if not c["env"] and len(c["ops"]) <= 12]
+    composed = [o for o in xc if len(o) >= 5]
+    simple = [o for o in xc if len(o) < 5]
+    rnd.shuffle(simple)
+    if run.tier == "quick":
+        simple = simple[:4000]
+        rnd.shuffle(composed)
+        composed = composed[:5000]
+    for i, ops in enumerate(composed + simple):
+        if any(o["k"] == "var" for o in ops):
+            continue
+        cases.append({"id": "x%d" % i, "knobs": [{"f": "check.expr", "v": "x:" + json.dumps(ops)}], "gated": False})
     pub, tcs = corpus_files()
     for i in range((1500 if run.tier == "quick" else 40000) if tcs else 0):
         t = tcs[i % len(tcs)]
